@@ -22,4 +22,13 @@ pub broadcast proof fn axiom_utf8_link_boundary(s: &str, i: int)
 #[verifier::external_body]
 pub broadcast proof fn axiom_utf8_link_len(s: &str)
     ensures #[trigger] vstd::string::StringSliceAdditionalSpecFns::spec_bytes(s).len() == utf8_len(s@) {}
-pub broadcast group group_utf8 { axiom_char_boundary_ends, axiom_utf8_link_boundary, axiom_utf8_link_len }
+// String range indexing (`s[..n]`, `s[a..b]`): "Panics if begin or end does not point to the starting byte offset of a character
+// or is out of bounds" (vstd specifies str indexing this way; for String the precondition is uninterpreted in this vstd)
+#[verifier::external_body]
+pub broadcast proof fn axiom_string_index_to(s: &String, r: &core::ops::RangeTo<usize>)
+    ensures #[trigger] vstd::std_specs::core::IndexSpec::index_req(s, r) == (r.end <= utf8_len(s@) && char_boundary(s@, r.end as nat)) {}
+#[verifier::external_body]
+pub broadcast proof fn axiom_string_index_range(s: &String, r: &core::ops::Range<usize>)
+    ensures #[trigger] vstd::std_specs::core::IndexSpec::index_req(s, r) ==
+        (r.start <= r.end && r.end <= utf8_len(s@) && char_boundary(s@, r.start as nat) && char_boundary(s@, r.end as nat)) {}
+pub broadcast group group_utf8 { axiom_char_boundary_ends, axiom_utf8_link_boundary, axiom_utf8_link_len, axiom_string_index_to, axiom_string_index_range }
